@@ -233,7 +233,7 @@ def run_c08(rep, tier, seed):
 
 # ------------------------------------------------------------------ C02 under group commit
 def one_syncgroup(args):
-    exe, base, idx, sc_seed, sched_seed = args
+    exe, base, idx, sc_seed, sched_seed, model = args
     rng = vlib.Rng(sc_seed)
     sc = k8lib.gen_scenario(rng, 'writers', nthreads=rng.range(3, 8), nops=rng.range(12, 26))
     # many sync writers queued behind non-sync leaders and vice versa
@@ -249,6 +249,7 @@ def one_syncgroup(args):
     problems = k8lib.check_liveness(run, sc)
     if not problems:
         problems = k8lib.check_group_sync(run, sc, stats)
+        problems += k8lib.check_group_model(run, model, stats)
     res = {'sc_seed': sc_seed, 'sched': sched, 'problems': problems, 'stats': stats, 'done': run.done, 'ngroups': len(run.groups)}
     if problems:
         res['scenario'] = sc.to_json(); res['history'] = history_lines(run); res['groups'] = run.groups[:400]
@@ -260,7 +261,8 @@ def run_sync_groups(rep, tier, seed):
     exe = k8lib.build_k8(out, 'pthread')
     n = 60 if tier == 'quick' else 1500
     rng = vlib.Rng(seed ^ 0x5C02)
-    jobs = [(exe, out, i, rng.next(), rng.next()) for i in range(n)]
+    model = vlib.ensure_model()
+    jobs = [(exe, out, i, rng.next(), rng.next(), model) for i in range(n)]
     with ThreadPoolExecutor(vlib.NCPU) as ex:
         results = list(ex.map(one_syncgroup, jobs))
     tot = {}; reported = 0
